@@ -22,7 +22,9 @@ from ..core import Check, Ctx, HarnessError, Violation, digest, dumps
 
 ID = "C18"
 RULE = (
-    "history: Hypothesis RuleBasedStateMachine, pool of <= 3 machine objects over 8 pipelines covering every prange "
+    "orders (exhaustive): each of the 8 pipelines as the first thing a process runs, followed by all the others on their "
+    "own machine objects (rotated: every ordered pair 'i before j' occurs), then the first one again, every run compared "
+    "with the hash a pristine single-purpose process computes. history: Hypothesis RuleBasedStateMachine, pool of <= 3 machine objects over 8 pipelines covering every prange "
     "kernel (refinement, ambiguity, risk, interval_bounds with regularisation, median_for_intervals) and every step "
     "class incl. multiscale, 2 generated input pairs >= 32x40 with masks, rules new_machine / check / run in any "
     "interleaving; non-trivial = a history with >= 2 runs of one pipeline separated by an operation on another machine. "
@@ -432,7 +434,26 @@ def env_runner(ctx: Ctx, tier, seed_val, shard, nshards, n):
             return
 
 
+def enumerate_orders(tier, shard, nshards):
+    """every pipeline of the table once as the FIRST thing a process does, followed by all the others (rotated, so that
+    every ordered pair 'i ran before j' occurs), each on its own machine object, then the first one again"""
+    n = len(PIPELINES)
+    variants = [(i, 0, 1) for i in range(n)]
+    if tier != "quick":
+        variants += [(i, 5, 1) for i in range(n)] + [(i, 0, -1) for i in range(n)] + [(i, 5, -1) for i in range(n)]
+    for k, (i, pair, direction) in enumerate(variants):
+        if k % nshards != shard:
+            continue
+        ops = []
+        for step in range(n):
+            j = (i + direction * step) % n
+            ops += [["new", step, j, 0], ["check", step, 0, pair], ["run", step, 0, pair]]
+        ops.append(["run", 0, 0, pair])
+        yield {"ops": ops}
+
+
 CHECKS = [
+    Check("orders", replay_history, enumerate=enumerate_orders, exhaustive=True, budget={"quick": (8, 0), "thorough": (16, 0)}),
     Check("history", replay_history, custom=history_runner, budget={"quick": (10, 6), "thorough": (16, 60)}),
     Check("environments", env_body, custom=env_runner, budget={"quick": (4, 1), "thorough": (4, 4)}, threads=4),
 ]
